@@ -1052,7 +1052,7 @@ pub fn c06(a: &Args) -> CaseSet {
     let mut cs = CaseSet::default();
     let mut r = Rng::new(a.seed ^ 0x06);
     let tb = std_tables()[0].clone();
-    let pieces = ["x", "y", "1", "2.5", ".", "+", "-", "*", "/", "^", "sin", "cos", "(", ")", ",", "{", "}", " ", "é", "max", "atan2", "PI", "e", "α", "$", "\u{7}", "{a b}", "1e5", "..", "=", "[", "]"];
+    let pieces = ["x", "y", "1", "2.5", ".", "+", "-", "*", "/", "^", "sin", "cos", "(", ")", ",", "{", "}", " ", "é", "max", "atan2", "PI", "e", "α", "$", "\u{7}", "{a b}", "1e5", "..", "=", "[", "]", "😀", "𝑥", "€", "\u{a0}"];
     let n_model = a.n;
     for i in 0..n_model {
         let len = if i % 5 == 0 { 8 + r.below(20) } else { 1 + r.below(7) };
@@ -1071,8 +1071,8 @@ pub fn c06(a: &Args) -> CaseSet {
         cs.add(&tb, p, qs, format!("{text:?}"), "token-pieces", len.max(2), |obs| { let bad = obs.iter().any(|o| *o == Obs::P); (Some(!bad), if bad { "a call panicked".into() } else { String::new() }) });
     }
     // part 2: exhaustive over short strings, implementation only (counted, not written to the Coq shards)
-    let alpha_f = ["x", "1", ".", "+", "-", "*", "sin", "(", ")", ",", "{", "}", " ", "é", "min", "^", "e", "2.5", "=", "y"];
-    let alpha_v = ["x", "1", "+", "-", "%", "(", ")", ",", "[", "]", " ", "if", "else", "true", "to_int", "1e10", ".", "<<", "==", "abs"];
+    let alpha_f = ["x", "1", ".", "+", "-", "*", "sin", "(", ")", ",", "{", "}", " ", "é", "min", "^", "e", "2.5", "😀", "y"];
+    let alpha_v = ["x", "1", "+", "-", "%", "(", ")", ",", "[", "]", " ", "if", "else", "true", "to_int", "1e10", ".", "<<", "𝑥", "abs"];
     let maxlen = if a.thorough { 4 } else { 3 };
     let (mut count, mut panics) = (0u64, 0u64);
     for (which, alphabet) in [(0, &alpha_f[..]), (1, &alpha_v[..])] {
